@@ -70,6 +70,11 @@ theorem derivative_helper_eq_grad (p : Prog R) (hd : DivOK p) (i k : Nat) (env :
   simp only [execDualWith_mkVar]
   exact ((dual_eq_grad p hd i env).2 k).2
 
+/-- **`Sum for Trace` is repeated addition**: summing traces is adding them one after another with
+    `+` to `Trace::zero()`. -/
+theorem sum_is_repeated_addition (items : List (Dual R)) :
+    Dual.sum items = items.foldl Dual.add (Dual.constant 0) := rfl
+
 /-- **Seeding each input in turn reproduces the gradient reverse mode reports.**  For the same
     program run with records on a tape: a result with a tape has `derivatives()` whose entry at
     the position of every input `i` equals the derivative component of the trace of the run
